@@ -238,6 +238,247 @@ def gen_schema(ctx, rng, ek, rich=True):
     return sch
 
 
+def fixed_schema(ctx, ek):
+    """The hand-made schema of the corpus: one extension option of every scalar kind on the options message of ek,
+    message M1 with a field of every kind / a recursive sub-message / repeated fields / a oneof / an extension range,
+    message M2 (extendable), proto3 message P3 (fields with and without presence), closed enum E1, open enum OE."""
+    std = std_schema(ctx)
+    tt, optmsg, stdfields = ELEMENTS[ek]
+    sch = Schema()
+    sch.ek = ek
+    std_enum_idx, std_msg_idx, pending = {}, {}, []
+
+    def enum_idx(full):
+        if full not in std_enum_idx:
+            e = std["enums"][full]
+            sch.enums.append({"name": full, "values": [(n, v) for n, v in e["values"]], "closed": e["closed"], "where": "std"})
+            std_enum_idx[full] = len(sch.enums) - 1
+        return std_enum_idx[full]
+
+    def msg_idx(full):
+        if full not in std_msg_idx:
+            sch.msgs.append({"name": full, "fields": [], "where": "std", "extendable": False})
+            std_msg_idx[full] = len(sch.msgs) - 1
+            pending.append(full)
+        return std_msg_idx[full]
+
+    msg_idx(optmsg)
+    sch.msgs.append({"name": "M1", "fields": [], "where": "main", "extendable": True})     # 1
+    sch.msgs.append({"name": "M2", "fields": [], "where": "main", "extendable": True})     # 2
+    sch.msgs.append({"name": "P3", "fields": [], "where": "p3", "extendable": False})      # 3
+    while pending:
+        full = pending.pop()
+        mi = std_msg_idx[full]
+        for f in (std["messages"][full] or []):
+            if f["map"] or f["kind"] == "group":
+                continue
+            sch.msgs[mi]["fields"].append(Field(f["name"], f["number"], _std_kind(sch, std, f, enum_idx, msg_idx),
+                                                rep=f["repeated"], oneof=(None if f["oneof"] < 0 else f["oneof"]),
+                                                implicit=f["implicit"], targets=f["targets"] or []))
+    sch.enums.append({"name": "E1", "values": [("E1_A", 0), ("E1_B", 1), ("E1_N", -5), ("E1_X", 2147483647)], "closed": True, "where": "main"})
+    e1 = len(sch.enums) - 1
+    sch.enums.append({"name": "OE", "values": [("OE_Z", 0), ("OE_A", 1), ("OE_B", 7)], "closed": False, "where": "p3"})
+    oe = len(sch.enums) - 1
+    m1 = sch.msgs[1]["fields"]
+    for i, k in enumerate(SCALARS):
+        m1.append(Field("f_" + k, i + 1, k))
+    m1 += [Field("sub", 16, ("msg", 1)), Field("rep", 17, "int32", rep=True), Field("repm", 18, ("msg", 1), rep=True),
+           Field("oa", 19, "string", oneof=0), Field("ob", 20, "int32", oneof=0), Field("om", 21, ("msg", 1), oneof=0),
+           Field("e", 22, ("enum", e1)), Field("oe", 23, ("enum", oe)), Field("p", 24, ("msg", 3)),
+           Field("onenum", 25, "int32", targets=[6]), Field("reps", 26, "string", rep=True)]
+    sch.msgs[2]["fields"] += [Field("z", 1, "int32")]
+    sch.msgs[3]["fields"] += [Field("a", 1, "int32", implicit=True), Field("s", 2, "string", implicit=True),
+                              Field("oa", 3, "int32"), Field("sub", 4, ("msg", 3)), Field("b", 5, "bool", implicit=True),
+                              Field("e", 6, ("enum", oe), implicit=True), Field("d", 7, "double", implicit=True),
+                              Field("r", 8, "int32", rep=True)]
+    num = 50001
+    for k in SCALARS:
+        sch.exts.append({"name": "x_" + k, "extendee": 0, "field": Field("x_" + k, num, k)})
+        num += 1
+    for n, k, rep, tg in [("xm", ("msg", 1), False, []), ("xr", "uint64", True, []), ("xrm", ("msg", 1), True, []),
+                          ("xe", ("enum", e1), False, []), ("xoe", ("enum", oe), False, []), ("xp", ("msg", 3), False, []),
+                          ("xt", "int32", False, [4]), ("xre", ("enum", e1), True, [])]:
+        sch.exts.append({"name": n, "extendee": 0, "field": Field(n, num, k, rep, None, False, tg)})
+        num += 1
+    sch.exts.append({"name": "y1", "extendee": 1, "field": Field("y1", 100, "int32")})
+    sch.exts.append({"name": "y1m", "extendee": 1, "field": Field("y1m", 101, ("msg", 2))})
+    sch.exts.append({"name": "y2", "extendee": 2, "field": Field("y2", 100, "int32")})
+    sch.exts.append({"name": "y2r", "extendee": 2, "field": Field("y2r", 101, "int32", rep=True)})
+    return sch
+
+
+def X(*parts):
+    """name path: "(x)" is an extension part, anything else a field part"""
+    return [("x", p[1:-1]) if p.startswith("(") else ("f", p) for p in parts]
+
+
+def L(**kw):
+    return ("msg", [(("x", k[2:]) if k.startswith("x_") and False else ("f", k), v) for k, v in kw.items()])
+
+
+def LM(*pairs):
+    """message literal from (name, value) pairs; name "[x]" = extension"""
+    return ("msg", [((("x", n[1:-1]) if n.startswith("[") else ("f", n)), v) for n, v in pairs])
+
+
+def I(v):
+    return ("int", v)
+
+
+_BADBOOL = ("msg", [(("f", "f_bool"), ("ident", "x"))])
+_GOODBOOL = ("msg", [(("f", "f_bool"), ("ident", "t"))])
+
+
+def corpus(ek):
+    """hand-picked statement lists for the fixed schema (each entry one case)"""
+    out = []
+    for k in SCALARS[:10]:
+        lo, hi = INT_RANGE[k]
+        for v in [lo - 1, lo, lo + 1, hi - 1, hi, hi + 1, 0, -1, 2**64, -2**63 - 1, 2**63, 2**32, -2**31]:
+            out.append([(X("(x_%s)" % k), I(v))])
+        out.append([(X("(x_%s)" % k), ("negzero",))])
+        for t in ["1.0", "1e3", "-0.0", "inf_neg"]:
+            out.append([(X("(x_%s)" % k), ("float", t))])
+        for t in ["inf", "nan", "true"]:
+            out.append([(X("(x_%s)" % k), ("ident", t))])
+        out.append([(X("(x_%s)" % k), ("str", [49]))])
+        out.append([(X("(xm)", "f_" + k), I(hi)), (X("(xm)", "f_" + k), I(lo))])
+        out.append([(X("(xm)"), LM(("f_" + k, I(hi + 1))))])
+        out.append([(X("(xm)"), LM(("f_" + k, I(lo))))])
+    for k in ("float", "double"):
+        for v in [0, 1, -1, 16777216, 16777217, 16777219, 9007199254740993, -9007199254740995, 2**63, 2**64 - 1, 2**64, -2**63,
+                  2**63 + 2**10 + 1, 3 * 2**62 + 12345, 10**19]:
+            out.append([(X("(x_%s)" % k), I(v))])
+        for t in FLOATS:
+            out.append([(X("(x_%s)" % k), ("float", t))])
+        for t in ["inf", "nan", "infinity", "Inf", "true"]:
+            out.append([(X("(x_%s)" % k), ("ident", t))])
+        out.append([(X("(x_%s)" % k), ("str", [49]))])
+        out.append([(X("(xm)"), LM(("f_" + k, ("ident", "inf")), ("f_float", ("float", "inf_neg"))))])
+    for t in IDENTS:
+        out.append([(X("(x_bool)"), ("ident", t))])
+        out.append([(X("(xm)"), LM(("f_bool", ("ident", t))))])
+    out.append([(X("(x_bool)"), I(1))])
+    out.append([(X("(x_bool)"), ("str", [116, 114, 117, 101]))])
+    out.append([(X("(x_string)"), ("str", [97, 34, 92, 39, 0x7e]))])
+    out.append([(X("(x_bytes)"), ("str", [0, 1, 255, 128, 10]))])
+    out.append([(X("(x_string)"), ("ident", "abc"))])
+    out.append([(X("(x_bytes)"), I(7))])
+    # enums
+    for v in [("ident", "E1_B"), ("ident", "E1_N"), ("ident", "FOO"), I(1), I(-5), ("float", "1.0"), ("str", [65]), ("ident", "OE_A")]:
+        out.append([(X("(xe)"), v)])
+        out.append([(X("(xoe)"), v)])
+        out.append([(X("(xm)"), LM(("e", v)))])
+        out.append([(X("(xm)"), LM(("oe", v)))])
+    for v in [0, 1, 7, 99, -5, 2147483647, 2147483648, -2147483648, -2147483649, 2**63, 2**64]:
+        out.append([(X("(xm)"), LM(("e", I(v))))])
+        out.append([(X("(xm)"), LM(("oe", I(v))))])
+    out.append([(X("(xre)"), ("ident", "E1_A")), (X("(xre)"), ("ident", "E1_X")), (X("(xre)"), ("ident", "E1_A"))])
+    # duplicates, merges
+    out += [
+        [(X("(x_int32)"), I(1)), (X("(x_int32)"), I(1))],
+        [(X("(xr)"), I(1)), (X("(xr)"), I(2)), (X("(xr)"), I(2**64 - 1))],
+        [(X("(xr)"), I(1)), (X("(xr)"), I(-1)), (X("(xr)"), I(3))],
+        [(X("(xm)", "f_int32"), I(1)), (X("(xm)", "f_int64"), I(2)), (X("(xm)", "f_int32"), I(3))],
+        [(X("(xm)"), LM(("f_int32", I(1)))), (X("(xm)", "f_int64"), I(2))],
+        [(X("(xm)"), LM(("f_int32", I(1)))), (X("(xm)", "f_int32"), I(2))],
+        [(X("(xm)", "f_int32"), I(1)), (X("(xm)"), LM(("f_int64", I(2))))],
+        [(X("(xm)"), LM()), (X("(xm)"), LM())],
+        [(X("(xm)"), LM(("f_int32", I(1)), ("f_int32", I(2))))],
+        [(X("(xrm)"), LM(("f_int32", I(1)))), (X("(xrm)"), LM(("f_int32", I(2)))), (X("(xrm)", "f_int32"), I(3))],
+        [(X("(xm)", "sub", "f_int32"), I(1)), (X("(xm)", "sub", "sub", "f_int32"), I(2)), (X("(xm)", "sub", "f_int32"), I(3))],
+        [(X("(xm)", "sub", "sub", "sub", "sub", "f_int64"), I(-2**63))],
+        [(X("(xm)", "sub", "rep"), I(1)), (X("(xm)", "sub", "rep"), I(2)), (X("(xm)", "rep"), I(3))],
+        [(X("(xm)", "rep", "x"), I(1))],
+        [(X("(xm)", "f_int32", "x"), I(1))],
+        [(X("(xm)", "repm", "f_int32"), I(1))],
+        [(X("(xm)", "nosuch"), I(1))],
+        [(X("nosuch"), I(1))],
+        [(X("(xm)", "sub", "nosuch", "x"), I(1))],
+        [(X("(x_int32)", "x"), I(1))],
+        # oneofs
+        [(X("(xm)", "oa"), ("str", [97])), (X("(xm)", "ob"), I(1))],
+        [(X("(xm)", "oa"), ("str", [97])), (X("(xm)", "oa"), ("str", [98]))],
+        [(X("(xm)", "om", "f_int32"), I(1)), (X("(xm)", "oa"), ("str", [120]))],
+        [(X("(xm)", "oa"), ("str", [120])), (X("(xm)", "om", "f_int32"), I(1))],
+        [(X("(xm)", "om", "f_int32"), I(1)), (X("(xm)", "om", "f_int64"), I(1))],
+        [(X("(xm)"), LM(("oa", ("str", [97])), ("ob", I(1))))],
+        [(X("(xm)"), LM(("oa", ("str", [97])))), (X("(xm)", "ob"), I(1))],
+        [(X("(xm)", "sub", "oa"), ("str", [97])), (X("(xm)", "oa"), ("str", [97])), (X("(xm)", "sub", "ob"), I(2))],
+        # lists
+        [(X("(xm)"), LM(("rep", ("list", [I(1), I(2)]))))],
+        [(X("(xm)"), LM(("rep", I(1)), ("rep", I(2)), ("rep", ("list", [I(3)]))))],
+        [(X("(xm)"), LM(("rep", ("list", []))))],
+        [(X("(xm)"), LM(("f_int32", ("list", [I(1)]))))],
+        [(X("(xm)"), LM(("rep", ("list", [I(1), ("str", [120]), I(3)]))))],
+        [(X("(xm)"), LM(("rep", ("list", [I(1), I(2**31)]))))],
+        [(X("(xm)"), LM(("repm", ("list", [LM(("f_int32", I(1))), LM(("f_int32", I(2)))]))))],
+        [(X("(xm)"), LM(("repm", ("list", [LM(("f_int32", I(1))), LM(("nosuch", I(2)))]))))],
+        [(X("(xm)"), LM(("repm", LM(("rep", ("list", [I(1)])))), ("repm", LM())))],
+        [(X("(xm)"), LM(("sub", LM(("sub", _GOODBOOL)))))],
+        [(X("(xm)"), LM(("sub", LM(("sub", _BADBOOL))), ("f_int32", I(1))))],
+        [(X("(xm)"), LM(("sub", I(1))))],
+        [(X("(xm)"), I(1))],
+        [(X("(xm)"), ("ident", "foo"))],
+        [(X("(xm)"), LM(("reps", ("list", [("str", [97]), ("str", [])]))))],
+        # fields without presence (proto3)
+        [(X("(xp)", "a"), I(0)), (X("(xp)", "a"), I(0))],
+        [(X("(xp)", "a"), I(0)), (X("(xp)", "a"), I(5))],
+        [(X("(xp)", "a"), I(5)), (X("(xp)", "a"), I(0))],
+        [(X("(xp)", "s"), ("str", [])), (X("(xp)", "s"), ("str", [120]))],
+        [(X("(xp)", "b"), ("ident", "false")), (X("(xp)", "b"), ("ident", "true"))],
+        [(X("(xp)", "e"), ("ident", "OE_Z")), (X("(xp)", "e"), ("ident", "OE_A"))],
+        [(X("(xp)", "d"), ("float", "0.0")), (X("(xp)", "d"), ("float", "1.5"))],
+        [(X("(xp)", "d"), ("float", "-0.0")), (X("(xp)", "d"), ("float", "1.5"))],
+        [(X("(xp)", "oa"), I(0)), (X("(xp)", "oa"), I(1))],
+        [(X("(xp)"), LM(("a", I(0)), ("a", I(5))))],
+        [(X("(xp)"), LM(("a", I(0)))), (X("(xp)", "a"), I(5))],
+        [(X("(xp)", "sub", "a"), I(0)), (X("(xp)", "sub", "s"), ("str", [])), (X("(xp)", "sub", "sub", "r"), I(0))],
+        [(X("(xm)", "p", "a"), I(0)), (X("(xm)", "p", "a"), I(0))],
+        # target types
+        [(X("(xt)"), I(1))],
+        [(X("(xm)", "onenum"), I(1))],
+        [(X("(xm)"), LM(("onenum", I(1))))],
+        [(X("(xt)"), ("str", [120]))],
+        # extensions inside messages
+        [(X("(xm)", "(y1)"), I(5))],
+        [(X("(xm)", "(y2)"), I(5))],
+        [(X("(xm)", "(y1m)", "z"), I(5)), (X("(xm)", "(y1m)", "(y2)"), I(6))],
+        [(X("(xm)"), LM(("[y1]", I(5)), ("f_int32", I(1))))],
+        [(X("(xm)"), LM(("[y2]", I(5))))],
+        [(X("(xm)"), LM(("[y2]", ("str", [120]))))],
+        [(X("(xm)"), LM(("[y2r]", I(5))))],
+        [(X("(xm)"), LM(("[y2r]", ("list", [I(5)]))))],
+        [(X("(xm)"), LM(("[y2]", ("list", [I(5)]))))],
+        [(X("(xm)"), LM(("[y1m]", LM(("z", I(1)), ("[y2]", I(2))))))],
+        [(X("(xm)"), LM(("[nosuch_ext_]", I(1))))] if False else [(X("(xm)"), LM(("nosuch", I(1))))],
+        [(X("(y1)"), I(1))],
+    ]
+    # standard options of the element kind
+    std_first = {"file": [(X("deprecated"), ("ident", "true")), (X("java_package"), ("str", [97, 46, 98])),
+                          (X("optimize_for"), ("ident", "CODE_SIZE")), (X("optimize_for"), ("ident", "FOO")),
+                          (X("optimize_for"), I(1)), (X("deprecated"), ("ident", "false"))],
+                 "message": [(X("deprecated"), ("ident", "true")), (X("deprecated"), ("ident", "true"))],
+                 "field": [(X("ctype"), ("ident", "CORD")), (X("lazy"), ("ident", "t")), (X("jstype"), ("ident", "JS_STRING")),
+                           (X("feature_support", "deprecation_warning"), ("str", [120])),
+                           (X("feature_support", "edition_introduced"), ("ident", "EDITION_2023")),
+                           (X("feature_support", "nosuch"), I(1))],
+                 "enumval": [(X("deprecated"), ("ident", "true")),
+                             (X("feature_support"), LM(("deprecation_warning", ("str", [120])), ("edition_removed", I(1000)))),
+                             (X("feature_support", "deprecation_warning"), ("str", [121]))],
+                 "method": [(X("idempotency_level"), ("ident", "IDEMPOTENT")), (X("idempotency_level"), I(2))],
+                 "enum": [(X("deprecated"), ("ident", "TRUE"))],
+                 "service": [(X("deprecated"), ("ident", "true")), (X("(x_int32)"), I(5)), (X("deprecated"), ("ident", "false"))],
+                 "extrange": [(X("verification"), ("ident", "UNVERIFIED"))],
+                 "oneof": [(X("deprecated"), ("ident", "true"))]}
+    sts = std_first.get(ek, [])
+    for i in range(len(sts)):
+        out.append(sts[:i + 1])
+    if sts:
+        out.append([(X("(x_int32)"), I(2**31))] + sts + [(X("(x_int64)"), I(1))])
+    return out
+
+
 def _type_name(sch, k):
     if isinstance(k, tuple):
         return (sch.msgs if k[0] == "msg" else sch.enums)[k[1]]["name"]
@@ -416,7 +657,12 @@ def rand_scalar_value(rng, sch, f, wrong):
     if k in INT_RANGE:
         if rng.chance(1, 25):
             return ("negzero",)
-        return ("int", rand_int(rng))
+        v = rand_int(rng)
+        if wrong == 0 and rng.chance(5, 6):
+            lo, hi = INT_RANGE[k]
+            if not lo <= v <= hi:
+                v = rng.choice([lo, hi, lo + 1, hi - 1, 0, 1])
+        return ("int", v)
     if k == "bool":
         return ("ident", rng.choice(["true", "false", "true", "false", "t", "f", "True", "False", "TRUE"]))
     if k in ("float", "double"):
@@ -607,7 +853,7 @@ def _val_coq(v):
 
 
 def find_elem(res, key):
-    for e in res.get("elems", []):
+    for e in (res.get("elems") or []):
         if e["el"] == key:
             return e
     return None
@@ -757,5 +1003,5 @@ def case_term(case, out, strict_mode="strictm"):
     if not st.get("ok") and st.get("errclass") == "link":
         raise Unmodelled("link error: %s" % st.get("err"))
     return "(OC %s %d%%N 0%%nat [%s] %s %s %s)" % (
-        sch.coq(), ELEMENTS[sch.ek][0], "; ".join(stmt_coq(s) for s in case["stmts"]),
+        case.get("sch_ref") or sch.coq(), ELEMENTS[sch.ek][0], "; ".join(stmt_coq(s) for s in case["stmts"]),
         obs_coq(st, key, orig), obs_coq(out["lenient"], key, orig), obs_coq(out["unlinked"], key, orig))
